@@ -4,7 +4,7 @@
 From V.lib Require Import Base.
 From V.c09 Require Import C09Model C09Spec C09Theorems.
 From V.c10 Require Import C10Model C10RlProofs C10CttsProofs C10StscProofs C10ConsProofs C10EndProofs C10LayoutProofs
-  C10TermProofs.
+  C10TermProofs C10OutProofs.
 
 (* the hypotheses are satisfiable: C09's 7-sample example table with a cut inside a run, a chunk and a ctts entry *)
 Example ex_crop : consistent ex_tb = true /\
@@ -211,3 +211,54 @@ Theorem C10_layout_total : forall file ts0,
                                         chunk_placed file (out_bytes file ranges) first' t c no) ts'.
 Proof. exact layout_total. Qed.
 Print Assumptions C10_layout_total.
+
+(* ... the byte ranges handed to writeMdat lie in the input file, firstOffset < 2^62, and the new payload is not longer
+   than the sample bytes of the tracks *)
+Theorem C10_layout_ranges : forall file ts0 fuel ts' ranges first',
+  Forall (static_ok file) ts0 -> Forall (fun t => ts_next t = 1 /\ ts_offsets t = []) ts0 ->
+  4611686018427387904 + pot ts0 < 18446744073709551616 ->
+  fill_loop fuel ts0 [] 0 0 = Ok (ts', ranges, first') ->
+  Forall (range_in file) ranges /\ first' < 4611686018427387904 /\ lenN (out_bytes file ranges) <= pot ts0.
+Proof. exact layout_ranges. Qed.
+Print Assumptions C10_layout_ranges.
+
+(* writeUptoMdat, the duration arithmetic (property text: "header durations do not exceed the originals"): whenever it
+   succeeds, every tkhd duration is the new duration and does not exceed the original one, mdhd durations are untouched,
+   every edit-list segment duration is <= the original, and the new mvhd duration does not exceed ANY bound that some
+   original tkhd duration respects — in particular the original mvhd duration of a conforming file (mvhd duration >= the
+   longest track).  No hypothesis on the numbers (64-bit wrap of endTime*timescale included). *)
+Example ex_hdr : write_upto_mdat_durs 1500 1000 600 [(3000, 7, None); (4000, 9, Some [[3000; 10]; [5]])]
+                 = Ok (900, [(900, 7, None); (900, 9, Some [[3000; 10]; [5]])]) /\
+                 write_upto_mdat_durs 1500 1000 600 [(899, 7, None)] = Err.
+Proof. vm_compute. split; reflexivity. Qed.
+Theorem C10_header_durations : forall et ets mvts tks nd tks',
+  write_upto_mdat_durs et ets mvts tks = Ok (nd, tks') ->
+  Forall2 (fun old new => tk_dur new = nd /\ nd <= tk_dur old /\ md_dur new = md_dur old /\ elst_le (tk_elst new) (tk_elst old))
+          tks tks' /\
+  (forall mv, (exists t, In t tks /\ tk_dur t <= mv) -> nd <= mv).
+Proof. exact header_durations. Qed.
+Print Assumptions C10_header_durations.
+
+(* without that guard the mvhd part of the property text is false of the code (known finding C10-F9): the original mvhd
+   duration is never looked at *)
+Theorem C10_mvhd_duration_refuted :
+  exists et ets mvts mv tks nd tks', write_upto_mdat_durs et ets mvts tks = Ok (nd, tks') /\ mv < nd /\
+    Forall (fun t => mv < tk_dur t) tks.
+Proof. exact mvhd_duration_refuted. Qed.
+Print Assumptions C10_mvhd_duration_refuted.
+
+(* writeMdat on a lazily decoded input mdat (the tool's mode), ranges inside the file, fewer than 2^32-8 bytes in all:
+   it succeeds and writes the 8-byte header (size, "mdat") followed by exactly the bytes of the ranges, in order
+   (C08's model of MdatBox.CopyData / io.CopyN, any short-read behaviour of the reader at EOF) *)
+Example ex_write_mdat : write_mdat ex_file false (C08Model.mdat_lazy 20 true 300) [(100, 103); (200, 200)]
+                        = Ok [0; 0; 0; 13; 109; 100; 97; 116; 7; 7; 7; 7; 7].
+Proof. vm_compute. reflexivity. Qed.
+Theorem C10_write_mdat : forall file zeof startPos large payloadLen rs,
+  0 < payloadLen -> lenN file < 9223372036854775808 -> Forall (range_in file) rs ->
+  ranges_len rs + 8 < 4294967296 ->
+  write_mdat file zeof (C08Model.mdat_lazy startPos large payloadLen) rs
+  = Ok (C08Model.be32 (ranges_len rs + 8) ++ C08Model.name_mdat ++ out_bytes file rs) /\
+  lenN (C08Model.be32 (ranges_len rs + 8) ++ C08Model.name_mdat) = mdat_out_hdr /\
+  lenN (out_bytes file rs) = ranges_len rs.
+Proof. exact write_mdat_correct. Qed.
+Print Assumptions C10_write_mdat.
